@@ -548,7 +548,7 @@ def run_states(ctx, out, label: str, size: str, H, corr: list | None = None) -> 
                      f"[{label}] after {d} : {what}",
                      {"kind": "introspect-state", "model": label, "state": d, "history": history[:-1], "sig": sig,
                       "fn": fn})
-    out.extra.setdefault("states", {})[label] = dict(stats, classes=len(classes_done), pairs=len(pairs))
+    out.extra.setdefault("element_states", {})[label] = dict(stats, classes=len(classes_done), pairs=len(pairs))
     vc = out.extra.setdefault("states_value_classes", {})
     for k, v in vclasses.items():
         vc[k] = vc.get(k, 0) + v
